@@ -68,18 +68,25 @@ Qed.
 
 (* ---- rewrite_all --------------------------------------------------------------------------------- *)
 Definition after_file (v : variant) (p : pred) (f : file) : list row :=
-  if is_affected p f then filter (fun r => holds r (keep_pred v p)) (snd f) else snd f.
+  if is_affected p f then (if unbound p (snd f) then snd f else filter (fun r => holds r (keep_pred v p)) (snd f)) else snd f.
+
+Definition ra_deleted (x : Z * Z * dataset) : Z := fst (fst x).
+Definition ra_failed (x : Z * Z * dataset) : Z := snd (fst x).
+Definition ra_ds (x : Z * Z * dataset) : dataset := snd x.
 
 (* the rows of the measurement after the loop, for both variants and every dataset *)
-Lemma rewrite_all_rows v p ds : rows_of (snd (rewrite_all v p ds)) = flat_map (after_file v p) ds.
+Lemma rewrite_all_rows v p ds : rows_of (ra_ds (rewrite_all v p ds)) = flat_map (after_file v p) ds.
 Proof.
+  unfold ra_ds.
   induction ds as [|f r IH]; cbn [rewrite_all flat_map]; [reflexivity|].
-  destruct (rewrite_all v p r) as [d r'] eqn:E. cbn [snd] in IH.
+  destruct (rewrite_all v p r) as [[d k] r'] eqn:E. cbn [snd] in IH.
   unfold after_file at 1. destruct (is_affected p f) eqn:Ea.
-  - unfold rewrite_file.
-    destruct (filter (fun r0 => holds r0 (keep_pred v p)) (snd f)) as [|k ks] eqn:Ek; cbn [snd rows_of flat_map app].
-    + exact IH.
-    + unfold rows_of in IH. rewrite IH. reflexivity.
+  - destruct (unbound p (snd f)).
+    + cbn [snd rows_of flat_map]. unfold rows_of in IH. rewrite IH. reflexivity.
+    + unfold rewrite_file.
+      destruct (filter (fun r0 => holds r0 (keep_pred v p)) (snd f)) as [|k0 ks] eqn:Ek; cbn [snd rows_of flat_map app].
+      * exact IH.
+      * unfold rows_of in IH. rewrite IH. reflexivity.
   - cbn [snd rows_of flat_map]. unfold rows_of in IH. rewrite IH. reflexivity.
 Qed.
 
@@ -89,64 +96,95 @@ Proof. reflexivity. Qed.
 Lemma nrows_cons f ds : nrows (f :: ds) = Z.of_nat (length (snd f)) + nrows ds.
 Proof. unfold nrows. rewrite rows_of_cons, app_length. lia. Qed.
 
-(* the reported count is the number of rows that disappeared - both variants, every dataset *)
-Lemma rewrite_all_count v p ds : fst (rewrite_all v p ds) = nrows ds - nrows (snd (rewrite_all v p ds)).
+(* the reported count is the number of rows that disappeared - both variants, every dataset,
+   whether or not some rewrites failed *)
+Lemma rewrite_all_count v p ds : ra_deleted (rewrite_all v p ds) = nrows ds - nrows (ra_ds (rewrite_all v p ds)).
 Proof.
+  unfold ra_deleted, ra_ds.
   induction ds as [|f r IH]; cbn [rewrite_all]; [reflexivity|].
-  destruct (rewrite_all v p r) as [d r'] eqn:E. cbn [fst snd] in IH.
+  destruct (rewrite_all v p r) as [[d k] r'] eqn:E. cbn [fst snd] in IH.
   destruct (is_affected p f).
-  - unfold rewrite_file.
-    destruct (filter (fun r0 => holds r0 (keep_pred v p)) (snd f)) as [|k ks] eqn:Ek; cbn [fst snd].
-    + rewrite nrows_cons. cbn [length]. lia.
-    + rewrite !nrows_cons. cbn [snd]. lia.
+  - destruct (unbound p (snd f)).
+    + cbn [fst snd]. rewrite !nrows_cons. lia.
+    + unfold rewrite_file.
+      destruct (filter (fun r0 => holds r0 (keep_pred v p)) (snd f)) as [|k0 ks] eqn:Ek; cbn [fst snd].
+      * rewrite nrows_cons. cbn [length]. lia.
+      * rewrite !nrows_cons. cbn [snd]. lia.
   - cbn [fst snd]. rewrite !nrows_cons. lia.
 Qed.
 
-(* when the keep filter coincides with "not TRUE" on the affected files, the delete is exact *)
-Lemma rewrite_all_exact v p ds :
-  (forall f, In f ds -> is_affected p f = true -> forall r, In r (snd f) -> holds r (keep_pred v p) = not_true p r) ->
-  rows_of (snd (rewrite_all v p ds)) = filter (not_true p) (rows_of ds).
+(* the failed files are exactly the affected files against which the predicate does not bind *)
+Definition fails (p : pred) (f : file) : bool := is_affected p f && unbound p (snd f).
+Lemma rewrite_all_failed v p ds : ra_failed (rewrite_all v p ds) = Z.of_nat (length (filter (fails p) ds)).
 Proof.
-  intros H. rewrite rewrite_all_rows.
+  unfold ra_failed, fails.
+  induction ds as [|f r IH]; cbn [rewrite_all filter]; [reflexivity|].
+  destruct (rewrite_all v p r) as [[d k] r'] eqn:E. cbn [fst snd] in IH.
+  destruct (is_affected p f); cbn [andb].
+  - destruct (unbound p (snd f)).
+    + cbn [fst snd length]. lia.
+    + destruct (rewrite_file v p f) as [df [f'|]]; cbn [fst snd]; exact IH.
+  - cbn [fst snd]. exact IH.
+Qed.
+
+Lemma no_failures v p ds : (0 <? ra_failed (rewrite_all v p ds)) = false ->
+  forall f, In f ds -> is_affected p f = true -> unbound p (snd f) = false.
+Proof.
+  rewrite rewrite_all_failed. intros H f Hf Ha. apply Z.ltb_ge in H.
+  assert (Hl : length (filter (fails p) ds) = 0%nat) by lia.
+  apply length_zero_iff_nil in Hl.
+  pose proof (filter_none _ _ Hl f Hf) as Hn. unfold fails in Hn. rewrite Ha in Hn. exact Hn.
+Qed.
+
+(* when no rewrite fails and the keep filter coincides with "not TRUE" on the affected files, the
+   delete is exact *)
+Lemma rewrite_all_exact v p ds :
+  (forall f, In f ds -> is_affected p f = true -> unbound p (snd f) = false) ->
+  (forall f, In f ds -> is_affected p f = true -> forall r, In r (snd f) -> holds r (keep_pred v p) = not_true p r) ->
+  rows_of (ra_ds (rewrite_all v p ds)) = filter (not_true p) (rows_of ds).
+Proof.
+  intros Hb H. rewrite rewrite_all_rows.
   induction ds as [|f r IH]; [reflexivity|].
   cbn [flat_map]. rewrite rows_of_cons, filter_app. f_equal.
   - unfold after_file. destruct (is_affected p f) eqn:Ea.
-    + apply filter_ext_in'. intros x Hx. apply (H f (or_introl eq_refl) Ea x Hx).
+    + rewrite (Hb f (or_introl eq_refl) Ea).
+      apply filter_ext_in'. intros x Hx. apply (H f (or_introl eq_refl) Ea x Hx).
     + symmetry. apply unaffected_filter_id; exact Ea.
-  - apply IH. intros g Hg. apply H; right; exact Hg.
+  - apply IH; intros g Hg; [apply Hb|apply H]; right; exact Hg.
 Qed.
 
 (* files without a TRUE row are not touched (same file, same rows, same position order) *)
-Lemma rewrite_all_untouched v p ds f : In f ds -> is_affected p f = false -> In f (snd (rewrite_all v p ds)).
+Lemma rewrite_all_untouched v p ds f : In f ds -> is_affected p f = false -> In f (ra_ds (rewrite_all v p ds)).
 Proof.
+  unfold ra_ds.
   induction ds as [|g r IH]; cbn [rewrite_all]; intros Hin Ha; [destruct Hin|].
-  destruct (rewrite_all v p r) as [d r'] eqn:E. cbn [snd] in IH.
+  destruct (rewrite_all v p r) as [[d k] r'] eqn:E. cbn [snd] in IH.
   destruct Hin as [->|Hin].
   - rewrite Ha. cbn. left; reflexivity.
   - specialize (IH Hin Ha). destruct (is_affected p g).
-    + destruct (rewrite_file v p g) as [df [g'|]]; cbn; [right|]; exact IH.
+    + destruct (unbound p (snd g)); [cbn; right; exact IH|].
+      destruct (rewrite_file v p g) as [df [g'|]]; cbn; [right|]; exact IH.
     + cbn. right; exact IH.
 Qed.
 
-Lemma in_after_file v p f r : In r (after_file v p f) -> In r (snd f) /\ holds r p = false.
+(* both variants, no failed rewrite: no surviving row is TRUE *)
+Lemma rewrite_all_drops_true v p ds r :
+  (forall f, In f ds -> is_affected p f = true -> unbound p (snd f) = false) ->
+  In r (rows_of (ra_ds (rewrite_all v p ds))) -> holds r p = false.
 Proof.
-  unfold after_file. destruct (is_affected p f) eqn:Ea.
-  - intros H. apply filter_In in H as [Hin Hk]. split; [exact Hin|]. eapply keep_not_true; exact Hk.
-  - intros H. split; [exact H|]. eapply unaffected_no_true; eassumption.
+  intros Hb. rewrite rewrite_all_rows. intros H. apply in_flat_map in H as (f & Hf & Hr).
+  unfold after_file in Hr. destruct (is_affected p f) eqn:Ea.
+  - rewrite (Hb f Hf Ea) in Hr. apply filter_In in Hr as [_ Hk]. eapply keep_not_true; exact Hk.
+  - eapply unaffected_no_true; eassumption.
 Qed.
 
-(* both variants: no surviving row is TRUE; every FALSE row survives *)
-Lemma rewrite_all_drops_true v p ds r : In r (rows_of (snd (rewrite_all v p ds))) -> holds r p = false.
-Proof.
-  rewrite rewrite_all_rows. intros H. apply in_flat_map in H as (f & _ & Hr).
-  apply in_after_file in Hr. tauto.
-Qed.
-
-Lemma rewrite_all_keeps_false v p ds r : In r (rows_of ds) -> eval r p = F -> In r (rows_of (snd (rewrite_all v p ds))).
+(* both variants, always: every FALSE row survives *)
+Lemma rewrite_all_keeps_false v p ds r : In r (rows_of ds) -> eval r p = F -> In r (rows_of (ra_ds (rewrite_all v p ds))).
 Proof.
   rewrite rewrite_all_rows. unfold rows_of. intros H He. apply in_flat_map in H as (f & Hf & Hr).
   apply in_flat_map. exists f. split; [exact Hf|].
   unfold after_file. destruct (is_affected p f); [|exact Hr].
+  destruct (unbound p (snd f)); [exact Hr|].
   apply filter_In. split; [exact Hr|]. apply keep_false; exact He.
 Qed.
 
@@ -181,9 +219,10 @@ Qed.
 Lemma delete_run_real v cf rq ds rsp ds' :
   rq_class rq = WValid -> rq_dry rq = false -> delete_run v cf rq ds = (rsp, ds') -> rs_status rsp = 200 ->
   (affected_files (rq_pred rq) ds = [] /\ ds' = ds /\ rs_deleted rsp = 0) \/
-  (affected_files (rq_pred rq) ds <> [] /\ ds' = snd (rewrite_all v (rq_pred rq) ds) /\
-   rs_deleted rsp = fst (rewrite_all v (rq_pred rq) ds) /\ rq_confirm rq = true /\
-   total_matches (rq_pred rq) ds <= cf_max_rows cf).
+  (affected_files (rq_pred rq) ds <> [] /\ ds' = ra_ds (rewrite_all v (rq_pred rq) ds) /\
+   rs_deleted rsp = ra_deleted (rewrite_all v (rq_pred rq) ds) /\ rq_confirm rq = true /\
+   total_matches (rq_pred rq) ds <= cf_max_rows cf /\
+   (0 <? ra_failed (rewrite_all v (rq_pred rq) ds)) = false).
 Proof.
   unfold delete_run. intros Hc Hd H Hs. rewrite Hc, Hd in H.
   destruct (rq_full rq && negb (rq_confirm rq)); [inversion H; subst; discriminate|].
@@ -194,13 +233,14 @@ Proof.
   - right.
     destruct (cf_max_rows cf <? sumz (map (match_count (rq_pred rq)) (a :: l))) eqn:Em; [inversion H; subst; discriminate|].
     rewrite andb_false_r in H.
-    destruct (rewrite_all v (rq_pred rq) ds) as [d dsr] eqn:Er.
+    destruct (rewrite_all v (rq_pred rq) ds) as [[d k] dsr] eqn:Er.
+    destruct (0 <? k) eqn:Ek; [inversion H; subst; discriminate|].
     inversion H; subst. cbn. repeat split; try congruence.
     apply Z.ltb_ge in Em. unfold total_matches. rewrite Ea. exact Em.
 Qed.
 
 Lemma delete_run_unchanged_unless_ok v cf rq ds rsp ds' :
-  delete_run v cf rq ds = (rsp, ds') -> rs_status rsp <> 200 \/ rq_dry rq = true -> ds' = ds.
+  delete_run v cf rq ds = (rsp, ds') -> (rs_status rsp <> 200 /\ rs_status rsp <> 207) \/ rq_dry rq = true -> ds' = ds.
 Proof.
   unfold delete_run. intros H Hor.
   destruct (rq_class rq); try (inversion H; subst; reflexivity).
@@ -210,7 +250,8 @@ Proof.
     destruct (cf_max_rows cf <? _); [inversion H; reflexivity|].
     destruct ((cf_threshold cf <? _) && negb (rq_confirm rq)); [inversion H; reflexivity|].
     destruct (rq_dry rq) eqn:Ed; [inversion H; reflexivity|].
-    destruct (rewrite_all v (rq_pred rq) ds). inversion H; subst. cbn in Hor. destruct Hor; congruence.
+    destruct (rewrite_all v (rq_pred rq) ds) as [[d k] dsr].
+    destruct (0 <? k); inversion H; subst; cbn in Hor; destruct Hor as [[H2 H7]|]; congruence.
   - destruct (rq_full rq && negb (rq_confirm rq)); [inversion H; reflexivity|].
     destruct (negb (rq_dry rq) && negb (rq_confirm rq)); inversion H; reflexivity.
 Qed.
@@ -231,9 +272,9 @@ Lemma delete_exact_when v cf rq ds rsp ds' :
   rows_of ds' = filter (not_true (rq_pred rq)) (rows_of ds).
 Proof.
   intros Hc Hd H Hs Hk.
-  destruct (delete_run_real _ _ _ _ _ _ Hc Hd H Hs) as [(Ha & -> & _)|(_ & -> & _)].
+  destruct (delete_run_real _ _ _ _ _ _ Hc Hd H Hs) as [(Ha & -> & _)|(_ & -> & _ & _ & _ & Hnf)].
   - symmetry. apply all_unaffected_filter_id. apply affected_none; exact Ha.
-  - apply rewrite_all_exact; exact Hk.
+  - apply rewrite_all_exact; [apply (no_failures _ _ _ Hnf)|exact Hk].
 Qed.
 
 Lemma delete_exact_repaired cf rq ds rsp ds' :
@@ -274,14 +315,38 @@ Lemma delete_safe v cf rq ds rsp ds' :
   (forall f, In f ds -> is_affected (rq_pred rq) f = false -> In f ds').
 Proof.
   intros Hc Hd H Hs.
-  destruct (delete_run_real _ _ _ _ _ _ Hc Hd H Hs) as [(Ha & -> & _)|(_ & -> & _)].
+  destruct (delete_run_real _ _ _ _ _ _ Hc Hd H Hs) as [(Ha & -> & _)|(_ & -> & _ & _ & _ & Hnf)].
   - repeat split; try tauto.
     intros r Hr. unfold rows_of in Hr. apply in_flat_map in Hr as (f & Hf & Hr).
     eapply unaffected_no_true; [|exact Hr]. apply (affected_none _ _ Ha f Hf).
   - repeat split.
-    + apply rewrite_all_drops_true.
+    + intros r. apply rewrite_all_drops_true.
+      match goal with Hx : (0 <? _) = false |- _ => apply (no_failures _ _ _ Hx) end.
     + apply rewrite_all_keeps_false.
     + intros; apply rewrite_all_untouched; assumption.
+Qed.
+
+(* a real run that reports 207: the failure is reported, the count is still what disappeared, FALSE rows
+   and unaffected files are still intact *)
+Lemma delete_partial v cf rq ds rsp ds' :
+  rq_class rq = WValid -> delete_run v cf rq ds = (rsp, ds') -> rs_status rsp = 207 ->
+  rs_success rsp = false /\ 0 < rs_failed rsp /\ rs_deleted rsp = nrows ds - nrows ds' /\
+  (forall r, In r (rows_of ds) -> eval r (rq_pred rq) = F -> In r (rows_of ds')) /\
+  (forall f, In f ds -> is_affected (rq_pred rq) f = false -> In f ds').
+Proof.
+  unfold delete_run. intros Hc H Hs. rewrite Hc in H.
+  destruct (rq_full rq && negb (rq_confirm rq)); [inversion H; subst; discriminate|].
+  destruct (negb (rq_dry rq) && negb (rq_confirm rq)); [inversion H; subst; discriminate|].
+  destruct (affected_files (rq_pred rq) ds); [inversion H; subst; discriminate|].
+  destruct (cf_max_rows cf <? _); [inversion H; subst; discriminate|].
+  destruct ((cf_threshold cf <? _) && negb (rq_confirm rq)); [inversion H; subst; discriminate|].
+  destruct (rq_dry rq); [inversion H; subst; discriminate|].
+  pose proof (rewrite_all_count v (rq_pred rq) ds) as Hcnt.
+  pose proof (rewrite_all_keeps_false v (rq_pred rq) ds) as Hkf.
+  pose proof (rewrite_all_untouched v (rq_pred rq) ds) as Hun.
+  destruct (rewrite_all v (rq_pred rq) ds) as [[d k] dsr]. unfold ra_deleted, ra_ds in *. cbn [fst snd] in *.
+  destruct (0 <? k) eqn:Ek; inversion H; subst; [|discriminate]. cbn.
+  apply Z.ltb_lt in Ek. repeat split; try assumption.
 Qed.
 
 (* dry run: nothing changes; the reported count is the number of TRUE rows of the measurement *)
@@ -302,32 +367,38 @@ Proof.
     inversion H; subst. cbn [rs_deleted resp]. exact Ht.
 Qed.
 
-(* dry run and real run of the same confirmed request: same status, and the same count whenever
-   the keep filter is "not TRUE" on the affected files *)
+(* dry run and real run of the same confirmed request: when the real run succeeds, the dry run
+   succeeded too and - whenever the keep filter is "not TRUE" on the affected files - reported the
+   same count *)
+Lemma dry_status_of_real v cf rq ds :
+  rq_class rq = WValid -> rq_confirm rq = true ->
+  rs_status (fst (delete_run v cf (with_dry rq false) ds)) = 200 ->
+  rs_status (fst (delete_run v cf (with_dry rq true) ds)) = 200.
+Proof.
+  intros Hc Hcf. unfold delete_run. cbn [with_dry rq_class rq_full rq_confirm rq_dry rq_pred].
+  rewrite Hc, Hcf. cbn [negb andb]. rewrite !andb_false_r.
+  destruct (affected_files (rq_pred rq) ds); [intros _; reflexivity|].
+  destruct (cf_max_rows cf <? _); [cbn; discriminate|].
+  rewrite ?andb_false_r. intros _. reflexivity.
+Qed.
+
 Lemma delete_same_count_when v cf rq ds :
   rq_class rq = WValid -> rq_confirm rq = true ->
   (forall f, In f ds -> is_affected (rq_pred rq) f = true -> forall r, In r (snd f) ->
      holds r (keep_pred v (rq_pred rq)) = not_true (rq_pred rq) r) ->
   let rd := fst (delete_run v cf (with_dry rq true) ds) in
   let rr := fst (delete_run v cf (with_dry rq false) ds) in
-  rs_status rd = rs_status rr /\ (rs_status rr = 200 -> rs_deleted rd = rs_deleted rr).
+  rs_status rr = 200 -> rs_status rd = 200 /\ rs_deleted rd = rs_deleted rr.
 Proof.
-  intros Hc Hcf Hk. cbn zeta.
+  intros Hc Hcf Hk. cbn zeta. intros Hs.
+  pose proof (dry_status_of_real v cf rq ds Hc Hcf Hs) as Hsd.
   destruct (delete_run v cf (with_dry rq true) ds) as [rd dsd] eqn:Ed.
-  destruct (delete_run v cf (with_dry rq false) ds) as [rr dsr] eqn:Er. cbn [fst].
-  assert (Hst : rs_status rd = rs_status rr).
-  { unfold delete_run in Ed, Er. cbn [with_dry rq_class rq_full rq_confirm rq_dry rq_pred] in Ed, Er.
-    rewrite Hc, Hcf in Ed, Er. cbn [negb andb] in Ed, Er. rewrite andb_false_r in Ed, Er.
-    destruct (affected_files (rq_pred rq) ds).
-    - inversion Ed; inversion Er; subst; reflexivity.
-    - destruct (cf_max_rows cf <? _); [inversion Ed; inversion Er; subst; reflexivity|].
-      rewrite andb_false_r in Ed, Er.
-      destruct (rewrite_all v (rq_pred rq) ds). inversion Ed; inversion Er; subst; reflexivity. }
-  split; [exact Hst|]. intros Hs.
+  destruct (delete_run v cf (with_dry rq false) ds) as [rr dsr] eqn:Er. cbn [fst] in *.
+  split; [exact Hsd|].
   assert (Hcd : rq_class (with_dry rq true) = WValid) by exact Hc.
   assert (Hcr : rq_class (with_dry rq false) = WValid) by exact Hc.
   destruct (delete_dry_run v cf (with_dry rq true) ds rd dsd eq_refl Ed) as (_ & Hdc).
-  rewrite (Hdc Hcd) by congruence.
+  rewrite (Hdc Hcd Hsd).
   rewrite (delete_count v cf (with_dry rq false) ds rr dsr Hcr eq_refl Er Hs).
   rewrite <- nrows_filter_split. f_equal. unfold nrows. f_equal. f_equal.
   symmetry. apply (delete_exact_when v cf (with_dry rq false) ds rr dsr Hcr eq_refl Er Hs). exact Hk.
